@@ -2498,6 +2498,8 @@ def _isinst(ev, v, c, fr, node):
                 return v.backend == "dask"
             return False
         if d == "numpy.ndarray":
+            if isinstance(v, Num) and v.backend == "dask":
+                return False          # a Dask array is not an ndarray
             return isinstance(v, (Num, NdArr)) and getattr(v, "kind", None) == "array"
     return None
 
@@ -4042,6 +4044,14 @@ def call_ext(ev, fn: ExtV, args, kwargs, fr, node):
                     if rd is not None:
                         given.dtype = rd
                     ev.trace.append(("dask-out-rebound", name, given))
+                elif isinstance(given, NdArr) and name in _ARITH_UFUNCS and len(args) == 2 and int(nout) == 1 and \
+                        any(isinstance(a, Num) and a.shape for a in args):
+                    # an explicit (small, concrete) scratch array receiving the product of symbolic arrays: afterwards it holds a OP b
+                    written = binop(ev, _ARITH_UFUNCS[name], args[0], args[1], node, fr)
+                    if fr is not None and getattr(fr, "env", None) is not None:
+                        ev._rebind_aliases(fr, given, written)
+                    ev.trace.append(("out-written", name, given, written))
+                    given = written
                 elif isinstance(given, NdArr) and name in _ARITH_UFUNCS and len(args) == 2 and int(nout) == 1:
                     # an explicit array as out=: the elementwise result is stored into that very array (explicit arrays model
                     # their own stores)
@@ -4055,7 +4065,22 @@ def call_ext(ev, fn: ExtV, args, kwargs, fr, node):
                     # (values are immutable in this evaluator: the written array is a new value that replaces the old one in
                     # every binding of the calling frame, exactly as for an in-place operator)
                     exprs = [a.expr if isinstance(a, Num) else sp.Symbol("arg_" + type(a).__name__) for a in args]
-                    written = given.like(sp.Function(f"Ufunc_{name}_{k}")(*exprs), unit=given.unit, dtype=given.dtype)
+                    term = sp.Function(f"Ufunc_{name}_{k}")(*exprs)
+                    arith_val = None
+                    if given.tag == "filled" and name in _ARITH_UFUNCS and len(args) == 2 and int(nout) == 1 and all(isinstance(a, Num) for a in args):
+                        # a scratch array made by np.empty / np.zeros as target of plain arithmetic: afterwards it holds a OP b
+                        try:
+                            val_ = binop(ev, _ARITH_UFUNCS[name], args[0], args[1], node, fr)
+                            if isinstance(val_, Num):
+                                term = val_.expr
+                                arith_val = val_
+                        except Exception:
+                            pass
+                    written = given.like(term, unit=given.unit, dtype=given.dtype)
+                    if arith_val is not None:
+                        written.axes = arith_val.axes        # the element indices of the computed contents
+                        if arith_val.shape is not None:
+                            written.shape = arith_val.shape
                     if fr is not None and getattr(fr, "env", None) is not None:
                         ev._rebind_aliases(fr, given, written)
                     ev.trace.append(("out-written", name, given, written))
